@@ -32,7 +32,7 @@ CHECKS = {
              "oracle: riffwalk validates; blobs byte-exact in the file, via Demuxer.GetChunk and via animation.DecodeBytes; flags <=> chunks; image/ALPH chunk bytes and decoded pixels/playback identical with and without metadata; thorough adds the 100 MB cap (+1 rejected, exactly 100 MB accepted and read back). "
              "Non-trivial: >=1 non-empty blob; distinct = (kind, subset+parities, codec, alpha, frame count).",
         assumptions=["an empty (zero-length) blob may be stored as an empty chunk or omitted; both accepted"],
-        tests=[dict(name="TestC15", quick=2400, thorough=48000), dict(name="TestC15Limit", quick=1, thorough=1, shards=1, thorough_only=True, no_replay=True)],
+        tests=[dict(name="TestC15", quick=2400, thorough=32000), dict(name="TestC15Limit", quick=1, thorough=1, shards=1, thorough_only=True, no_replay=True)],
     ),
     "C19": dict(
         level="exploration",
@@ -40,7 +40,7 @@ CHECKS = {
              "oracle (metamorphic): all presentations give byte-identical files from a pool-flushed state; changing only out-of-bounds bytes changes nothing; SHA-256 of the caller's whole backing buffer unchanged. "
              "Non-trivial: >=2 colours and >=3 presentations; distinct = (codec, alpha, Exact, sharp, preprocessing, Method, presentation list).",
         assumptions=["sync.Pool state is normalised (runtime.GC x2) before each compared encode; history dependence is C11's subject"],
-        tests=[dict(name="TestC19", quick=1600, thorough=60000)],
+        tests=[dict(name="TestC19", quick=1200, thorough=40000)],
     ),
     "C20": dict(
         level="exploration",
@@ -75,7 +75,7 @@ CHECKS = {
              "Non-trivial: input still carries the RIFF/WEBP magic; distinct = (source, seed, mutation kinds, which entry points accepted). Thorough adds a native coverage-guided fuzz campaign over the same entry points.",
         assumptions=["inputs declaring more than 2^22 pixels are run through the header-only entry points (counted as skipped_huge_declared)",
                      "allocation measured with runtime.MemStats.TotalAlloc in a single-goroutine test process"],
-        tests=[dict(name="TestC05", quick=60000, thorough=1500000, env=dict(VERIF_WANT_LASTCASE="1"))],
+        tests=[dict(name="TestC05", quick=60000, thorough=800000, env=dict(VERIF_WANT_LASTCASE="1"))],
         fuzz=[dict(name="FuzzC05", seconds=240)],
     ),
     "C17": dict(
@@ -134,7 +134,7 @@ CHECKS = {
              "On a difference the verif-tagged Workers hook re-runs with single sites pinned to one worker to attribute it to a call site (known findings are keyed by site). "
              "Non-trivial: at least one parallel site saw more than one worker (hook); distinct = (codec, sites engaged, Method, size class).",
         assumptions=["runtime.GOMAXPROCS(n) inside one process stands for a process started with that setting", "pool state normalised before each compared encode"],
-        tests=[dict(name="TestC12", quick=480, thorough=6000)],
+        tests=[dict(name="TestC12", quick=480, thorough=4000)],
     ),
     "C11": dict(
         level="exploration",
@@ -142,17 +142,20 @@ CHECKS = {
              "The history runs with the GC disabled (pooled objects survive); every previously returned value and caller-owned input is re-hashed after every later call. Oracle: each call's result equals the result of the same call from a flushed-pool (fresh) state. "
              "Non-trivial: the verif-tagged Pool hook saw at least one pool hit during the history; distinct = sequence of (previous op -> op) pairs.",
         assumptions=["runtime.GC() twice empties every sync.Pool, standing for a fresh process", "results are compared through digests (bytes; image type+bounds+samples; error text)"],
-        tests=[dict(name="TestC11", quick=800, thorough=25000)],
+        tests=[dict(name="TestC11", quick=800, thorough=10000)],
     ),
     "C10": dict(
         level="exploration",
         rule="(schedules) for the row-pipelined lossy encoder rapid draws a perturbation plan for the verif-tagged Yield hook (sites: row claim, wait entry, wait after registering as waiter, signal entry, signal after storing progress, before export; per row class; runtime.Gosched x1-20 or sleep 1-200 us) and a worker count 2-6 (Workers hook) on pictures with >=4 macroblock rows, Method 3-6; oracle: bytes equal the same pipelined encode with ONE worker and no perturbation; a 90 s watchdog turns a deadlock/lost wake-up into a reported hang with a goroutine dump. "
              "(concurrent API) 2-10 goroutines run generated call lists (Encode lossy/lossless, Decode/DecodeConfig/GetFeatures of intact and damaged files, animation encode and playback) at GOMAXPROCS 2-16 sharing the internal pools; oracle: every result equals the result of the same call run alone from a fresh state; returned values stay intact. "
-             "Both parts also run under the Go race detector (any DATA RACE report is a violation). "
+             "(lossless sections) pictures above the 50,000-pixel threshold (collage/tiled/photo/palette content, Quality>=90 bias) are encoded and decoded by 1-3 goroutines at GOMAXPROCS 3-16 and compared with the result obtained with every parallel section pinned to one worker (Workers hook). "
+             "All parts also run under the Go race detector (any DATA RACE report is a violation). "
              "Non-trivial: >=4 rows claimed by the pipeline, or >=2 goroutines with at least one pool hit; distinct = (plan kinds, worker count, Method) / (goroutines, procs, op mix, calls).",
         assumptions=["the Go scheduler is perturbed at the hooked points and by GOMAXPROCS/load, not enumerated: an interleaving inside an unhooked critical region can be missed", "race detector findings depend on the schedules that actually occur"],
         tests=[dict(name="TestC10Sched", quick=320, thorough=16000), dict(name="TestC10Conc", quick=64, thorough=4000),
-               dict(name="TestC10Sched", quick=32, thorough=1200, variant="race"), dict(name="TestC10Conc", quick=16, thorough=640, variant="race")],
+               dict(name="TestC10Lossless", quick=64, thorough=3000),
+               dict(name="TestC10Sched", quick=32, thorough=1200, variant="race"), dict(name="TestC10Conc", quick=16, thorough=640, variant="race"),
+               dict(name="TestC10Lossless", quick=16, thorough=600, variant="race")],
     ),
     "C13": dict(
         level="exploration",
@@ -165,7 +168,7 @@ CHECKS = {
                      "encoder-side inverse transforms are only required to agree on coefficient ranges an 8-bit picture can produce"],
         tests=[],
         variants=[dict(name="avx2", variant="", env={}), dict(name="sse2", variant="", env={"WEBP_VERIF_NOAVX2": "1"}), dict(name="portable", variant="noasm", env={})],
-        differential=[dict(test="TestC13Pipe", quick=1600, thorough=40000), dict(test="TestC13Kern", quick=48000, thorough=4000000)],
+        differential=[dict(test="TestC13Pipe", quick=1600, thorough=40000), dict(test="TestC13Kern", quick=48000, thorough=2000000)],
         compile_matrix=dict(quick=["linux/386", "linux/arm", "linux/arm64", "linux/s390x", "linux/riscv64", "linux/ppc64le", "windows/amd64", "windows/386", "darwin/arm64", "js/wasm", "freebsd/amd64", "linux/mips"], thorough="all"),
     ),
     "C03": dict(
